@@ -994,7 +994,16 @@ class HDF5FileSources(Contract):
             args = acalls[0]['inner'][1:]
             dsn = [x.get('name') for x in _walk(args[0]) if x.get('kind') == 'MemberExpr']
 
+            rf_locals = {x['id']: x for x in _walk(rfk[0]) if x.get('kind') == 'VarDecl' and x.get('inner') and 'const' in x.get('type', {}).get('qualType', '')}
+
             def member_of_param(a_, meth):
+                # a value kept in a const local first (`const size_t n = kicks.size();`) is still that value
+                for _ in range(3):
+                    refs_ = [x for x in _walk(a_) if x.get('kind') == 'DeclRefExpr' and (x.get('referencedDecl') or {}).get('id') in rf_locals]
+                    if len(refs_) == 1 and not any(y.get('kind') in ('BinaryOperator', 'UnaryOperator', 'CXXMemberCallExpr') for y in _walk(a_)):
+                        a_ = rf_locals[refs_[0]['referencedDecl']['id']]['inner'][-1]
+                    else:
+                        break
                 ms = [x for x in _walk(a_) if x.get('kind') == 'CXXMemberCallExpr' and x['inner'][0].get('name') == meth]
                 return len(ms) == 1 and [(y.get('referencedDecl') or {}).get('name') for y in _walk(ms[0]) if y.get('kind') == 'DeclRefExpr'] == [pnm[0]] and \
                     not any(y.get('kind') in ('BinaryOperator', 'UnaryOperator') for y in _walk(a_))
